@@ -53,6 +53,13 @@ func hC13Module() (*Module, *Func) {
 	c := b.NewCall(callee)
 	b.NewStore(constant.NewInt(types.I32, 1), late) // prints the (stale) type of @late
 	b.NewCall(lf)
+	// values whose own type derives from the stale-typed global: a getelementptr
+	// instruction, a getelementptr constant expression (as operand and as
+	// initialiser) and a load
+	zero := constant.NewInt(types.I32, 0)
+	b.NewGetElementPtr(types.I32, late, zero).SetName("gp")
+	b.NewLoad(types.I32, constant.NewGetElementPtr(types.I32, late, zero)).SetName("lde")
+	m.NewGlobalDef("gepinit", constant.NewGetElementPtr(types.I32, late, zero))
 	b2 := f.NewBlock("")
 	b.NewBr(b2)
 	b2.NewRet(b2.NewAdd(v, c))
